@@ -14,12 +14,17 @@ PROPS_FILE = "C08/Props.v"
 SHARD = 30
 PER_CASE_TIMEOUT = 120
 RULE = ("random searches: ForecastingGridSearchCV (85%) / ForecastingRandomizedSearchCV (15%, "
-        "candidates read back from cv_results_) over four base forecasters - the recording test "
-        "double (grid over its integer coefficients and an inert `tag` parameter that creates exact "
-        "ties), NaiveForecaster (strategy x window_length), TransformedTargetForecaster([affine test "
-        "transformer, double or naive]) with nested t__a / t__b / f__<param> names, "
-        "MultiplexForecaster selecting among doubles and naive members (repeated names create ties) "
-        "- 2..8 candidates, series of small positive integers (n <= 22), sliding / expanding / "
+        "candidates read back from cv_results_) over four base forecasters WITH NON-DEFAULT base "
+        "parameters - the recording test double (its integer coefficients and an inert `tag` "
+        "parameter that creates exact ties), NaiveForecaster (strategy, window_length), "
+        "TransformedTargetForecaster([affine test transformer, double or naive]) with nested t__a / "
+        "t__b / f__<param> names, MultiplexForecaster with a pre-selected member (selected_forecaster "
+        "and nested m<i>__<param>; repeated names create ties) - search space given as ONE dict (50%) "
+        "or as a LIST of 2-3 dicts naming DIFFERENT parameters with overlapping value sets, possibly "
+        "the empty dict (50%): candidates are partial assignments that leave other parameters at the "
+        "base forecaster's values; 30%: a PRIOR search on a different series in the same process, on "
+        "the same tuner object or on a second tuner sharing the base forecaster and cv objects - "
+        "2..8 candidates, series of small positive integers (n <= 22), sliding / expanding / "
         "single splitters as in C07, strategy refit / update, metrics of both directions (MAPE, "
         "sMAPE default, MAE, MSE, asymmetric scorer as loss and as greater_is_better, negated MAE "
         "greater_is_better), refit True/False, fit with/without fh, then predict / update / cutoff "
@@ -40,9 +45,10 @@ MODELLED = [
     "pandas Series.rank(method='average', ascending=...) and Series.argmin() are hand models in Coq "
     "(rank_avg / argmin), proved to pick the first best mean, and compared EXACTLY with the "
     "implementation's rank column and best_index_ on the implementation's own float means",
-    "clone(forecaster).set_params(**params) is modelled as 'the forecaster with parameters p' "
-    "(abstract family in the theorems; decoded per family in the correspondence); NaN scores are "
-    "outside the model",
+    "clone(forecaster).set_params(**params) is modelled as `apply_params base p` on forecaster "
+    "objects without fitted state (abstract in the theorems: any F, any partial-assignment type P, "
+    "any apply_params; in the correspondence `apply8` over the twins: one assignment per dict "
+    "entry, unnamed parameters keep the base value); NaN scores are outside the model",
     "affine TransformedTargetForecaster and MultiplexForecaster are modelled only as far as needed "
     "to decode a candidate (transform the data handed to the inner forecaster, invert the forecast; "
     "a multiplexer behaves as its selected member); C09 owns their semantics",
@@ -120,38 +126,55 @@ def make_base(base):
             "strategy", "last")))
     if t == "pipe":
         from sktime.forecasting.compose import TransformedTargetForecaster
-        return TransformedTargetForecaster([("t", affine_class()()), ("f", _member(base["inner"]))])
+        return TransformedTargetForecaster([
+            ("t", affine_class()(a=base.get("a", 1), b=base.get("b", 0))),
+            ("f", _member(base["inner"]))])
     if t == "mux":
         from sktime.forecasting.compose import MultiplexForecaster
-        return MultiplexForecaster([(nm, _member(sp)) for nm, sp in base["members"]])
+        return MultiplexForecaster([(nm, _member(sp)) for nm, sp in base["members"]],
+                                   selected_forecaster=base.get("selected"))
     raise AssertionError(t)
 
 
+def subgrids(grid):
+    """param_grid / param_distributions as a list of dicts (a single dict is a one-element list)."""
+    return [grid] if isinstance(grid, dict) else list(grid)
+
+
 def grid_order(grid):
-    """sklearn.model_selection.ParameterGrid order: keys sorted, last key varies fastest."""
-    keys = sorted(grid)
-    return [dict(zip(keys, vals)) for vals in itertools.product(*[grid[k] for k in keys])]
+    """sklearn.model_selection.ParameterGrid order: sub-grids in the order given; inside one, keys
+    sorted and the last key varies fastest; the empty dict is one candidate `{}`."""
+    out = []
+    for g in subgrids(grid):
+        keys = sorted(g)
+        out += [dict(zip(keys, vals)) for vals in itertools.product(*[g[k] for k in keys])]
+    return out
 
 
 def decode(base, params):
-    """The forecaster spec (as in C07 cases) that a candidate denotes."""
+    """The forecaster spec (as in C07 cases) that clone(base).set_params(**params) denotes: a
+    parameter the (partial) dict does not name keeps the base forecaster's value."""
     t = base["type"]
     if t == "double":
         k = list(base["k"])
         for i, nm in enumerate("abcde"):
             if nm in params:
                 k[i] = params[nm]
-        return {"type": "double", "k": k}
+        return {"type": "double", "k": k, "tag": params.get("tag", base.get("tag", 0))}
     if t == "naive":
         return {"type": "naive", "strategy": params.get("strategy", base.get("strategy", "last")),
                 "wl": params.get("window_length", base.get("wl"))}
     if t == "pipe":
         inner = decode(base["inner"], {k[3:]: v for k, v in params.items() if k.startswith("f__")})
-        return {"type": "pipe", "a": params.get("t__a", 1), "b": params.get("t__b", 0),
-                "inner": inner}
+        return {"type": "pipe", "a": params.get("t__a", base.get("a", 1)),
+                "b": params.get("t__b", base.get("b", 0)), "inner": inner}
     if t == "mux":
-        return dict(base["members"])[params["selected_forecaster"]] if \
-            params["selected_forecaster"] in dict(base["members"]) else None
+        sel = params.get("selected_forecaster", base.get("selected"))
+        members = dict(base["members"])
+        if sel not in members:
+            return None
+        return decode(members[sel], {k[len(sel) + 2:]: v for k, v in params.items()
+                                     if k.startswith(sel + "__")})
     raise AssertionError(t)
 
 
@@ -160,7 +183,7 @@ def _double_key(spec):
     if spec is None:
         return None
     if spec["type"] == "double":
-        return list(spec["k"])
+        return list(spec["k"]) + [spec.get("tag", 0)]
     if spec["type"] == "pipe":
         return _double_key(spec["inner"])
     return None
@@ -211,22 +234,109 @@ def _run_script(f, script):
     return out
 
 
+def driver_init():
+    """import everything a search needs, WITHOUT running one: every case then runs in a forked copy
+    of this never-used process (see run_impl)"""
+    import warnings
+    warnings.simplefilter("ignore")
+    import pandas  # noqa: F401
+    from sklearn.base import clone  # noqa: F401
+    from sktime.forecasting.compose import (MultiplexForecaster,  # noqa: F401
+                                            TransformedTargetForecaster)
+    from sktime.forecasting.model_evaluation import evaluate  # noqa: F401
+    from sktime.forecasting.model_selection import (ForecastingGridSearchCV,  # noqa: F401
+                                                    ForecastingRandomizedSearchCV)
+    from sktime.forecasting.naive import NaiveForecaster  # noqa: F401
+    c07.double_class()
+    affine_class()
+    make_metric("asym_gib")
+    for nm in set(TUNE_METRICS) - {"asym_gib"}:
+        c07.make_metric(nm)
+    _INIT["done"] = True
+
+
+_INIT = {}
+
+
+def forked(fn, case):
+    """fn(case) in a forked child; the JSON-able result comes back through a pipe.  No state of one
+    case (module-level caches, objects left fitted, advanced iterators) can reach another case, so a
+    failing case fails on its own in the replay: whatever history a case needs is inside the case."""
+    import json
+    import os
+    import signal
+    r, w = os.pipe()
+    pid = os.fork()
+    if pid == 0:
+        try:
+            os.close(r)
+            try:
+                payload = {"ok": fn(case)}
+            except BaseException:
+                import traceback
+                payload = {"exc": traceback.format_exc()[-1500:]}
+            with os.fdopen(w, "w") as f:
+                json.dump(payload, f, default=str)
+        finally:
+            os._exit(0)
+    os.close(w)
+    try:
+        with os.fdopen(r) as f:
+            data = f.read()
+    finally:
+        try:
+            os.kill(pid, signal.SIGKILL)
+        except OSError:
+            pass
+        os.waitpid(pid, 0)
+    if not data:
+        raise RuntimeError("forked case died without a result")
+    payload = json.loads(data)
+    if "exc" in payload:
+        raise RuntimeError(payload["exc"])
+    return payload["ok"]
+
+
 def run_impl(case):
+    if not _INIT.get("done"):
+        driver_init()
+    return forked(_run_impl, case)
+
+
+def _run_impl(case):
     from sklearn.base import clone
     from sktime.forecasting.model_evaluation import evaluate
     from sktime.forecasting.model_selection import (ForecastingGridSearchCV,
                                                     ForecastingRandomizedSearchCV)
     from harness.core import float_ratio
+    import pandas as pd
     y, X = c07.make_data(case)
     cv = c07.make_cv(case["splitter"])
     base = make_base(case["base"])
     scoring = make_metric(case["metric"])
     kw = dict(scoring=scoring, strategy=case["strategy"], refit=case["refit"])
-    if case["search"] == "grid":
-        g = ForecastingGridSearchCV(base, cv, case["grid"], **kw)
-    else:
-        g = ForecastingRandomizedSearchCV(base, cv, case["grid"], n_iter=case["n_iter"],
-                                          random_state=case["seed"], **kw)
+
+    def tuner():
+        if case["search"] == "grid":
+            return ForecastingGridSearchCV(base, cv, case["grid"], **kw)
+        return ForecastingRandomizedSearchCV(base, cv, case["grid"], n_iter=case["n_iter"],
+                                             random_state=case["seed"], **kw)
+
+    def state(obj):
+        if hasattr(obj, "get_params"):
+            return sorted((k, repr(v)) for k, v in obj.get_params().items())
+        return sorted((k, repr(v)) for k, v in vars(obj).items())
+    g = tuner()
+    base_before, cv_before = state(base), state(cv)
+    # a PRIOR search on a different series in the same process: on the same tuner object, or on a
+    # second tuner that shares the base forecaster and the cv object.  Nothing of it may survive.
+    if case.get("prior"):
+        y0 = pd.Series(y.to_numpy()[::-1] + 1.0, index=y.index)
+        g0 = g if case["prior"] == "same" else tuner()
+        try:
+            g0.fit(y0, X, fh=case["fit_fh"])
+        except (ValueError, TypeError):
+            pass
     del c07.LOG[:]
     try:
         g.fit(y, X, fh=case["fit_fh"])
@@ -244,7 +354,9 @@ def run_impl(case):
            "best_index": int(g.best_index_), "best_score": float_ratio(g.best_score_),
            "best_params": dict(g.best_params_), "log": log,
            "best_forecaster_params_ok": all(
-               g.best_forecaster_.get_params()[k] == v for k, v in g.best_params_.items())}
+               g.best_forecaster_.get_params()[k] == v for k, v in g.best_params_.items()),
+           "base_unchanged": state(base) == base_before, "cv_unchanged": state(cv) == cv_before,
+           "best_is_base_object": g.best_forecaster_ is base}
     # an independent evaluate() run per candidate, outside the tuner
     indep = []
     for p in out["params"]:
@@ -305,13 +417,23 @@ def oracle(case, out):
     else:
         if len(params) != case["n_iter"]:
             return "candidates-count: %d sampled, n_iter=%d" % (len(params), case["n_iter"])
+        support = grid_order(case["grid"])
         for p in params:
-            if set(p) != set(case["grid"]) or any(p[k] not in case["grid"][k] for k in p):
+            if p not in support:
                 return "candidate-outside-distribution: %s" % p
+    # the search leaves the objects it was given alone (it works on clones)
+    if not out["base_unchanged"] or out["best_is_base_object"]:
+        return "base-forecaster-mutated-by-search: parameters of the forecaster passed to the " \
+               "tuner changed during fit (best_forecaster_ is the same object: %s)" % \
+               out["best_is_base_object"]
+    if not out["cv_unchanged"]:
+        return "cv-mutated-by-search: attributes of the splitter passed to the tuner changed " \
+               "during fit"
     means = [_fr(m) for m in out["means"]]
     if any(m is None for m in means):
         return "mean-score-not-finite: %s" % out["means"]
-    # every row of cv_results_ equals an independent evaluate run of that candidate
+    # every row of cv_results_ equals an independent evaluate run of that candidate: of a fresh clone
+    # of the base forecaster with the candidate's (partial) dict set - whatever was evaluated before
     specs = [decode(case["base"], p) for p in params]
     for i, (m, im) in enumerate(zip(means, out["indep_means"])):
         if _fr(im) is None or abs(m - _fr(im)) > Fraction(1, 10 ** 12) * max(1, abs(m)):
@@ -339,7 +461,7 @@ def oracle(case, out):
             for j, (tr, te) in enumerate(splits):
                 d, p = seg[2 * j], seg[2 * j + 1]
                 want_op = "fit" if (j == 0 or case["strategy"] == "refit") else "update"
-                if d["who"][:5] != k or p["who"][:5] != k:
+                if d["who"] != k or p["who"] != k:
                     return "candidate-parameters-not-set: candidate %d calls logged by %s, " \
                            "expected %s" % (i, d["who"], k)
                 if d["op"] != want_op or p["op"] != "predict":
@@ -357,7 +479,7 @@ def oracle(case, out):
             if last["op"] != "fit" or last["yt"] != [off, off + n - 1, n]:
                 return "refit-not-on-the-whole-series: refit call %s on %s, series is %s" % (
                     last["op"], last["yt"], [off, off + n - 1, n])
-            if last["who"][:5] != keys[out["best_index"]] if 0 <= out["best_index"] < len(keys) \
+            if last["who"] != keys[out["best_index"]] if 0 <= out["best_index"] < len(keys) \
                     else True:
                 return "refit-not-the-best-candidate: refit by %s" % last["who"]
     # best = first arg-best in the declared direction
@@ -415,54 +537,95 @@ def _sub(rng, vals, lo=1, hi=3):
     return rng.sample(vals, k)
 
 
-def rand_search(rng):
+def _rand_member(rng, minlen):
+    if rng.random() < 0.6:
+        return {"type": "double", "k": [rng.randint(-1, 2), rng.randint(0, 1), 0,
+                                        rng.randint(-1, 1), rng.randint(-1, 2)]}
+    return {"type": "naive", "strategy": rng.choice(["last", "mean"]),
+            "wl": rng.choice([None, None, 1, min(2, minlen)])}
+
+
+def _leaf_pool(spec, minlen, prefix=""):
+    """parameter name -> values a search may try, for a double / naive forecaster"""
+    if spec["type"] == "double":
+        pool = {prefix + nm: [-2, -1, 0, 1, 2, 3] for nm in ("a", "b", "d", "e")}
+        pool[prefix + "tag"] = [0, 1, 2]
+        return pool
+    return {prefix + "strategy": ["last", "mean"],
+            prefix + "window_length": [None] + list(range(1, min(3, minlen) + 1))}
+
+
+def rand_base(rng, minlen=1):
+    """base forecaster spec (non-default parameters) and the pool of searchable parameters"""
     fam = rng.choice(["double", "double", "naive", "pipe", "mux"])
     if fam == "double":
         base = {"type": "double", "k": [rng.randint(-1, 2), rng.randint(0, 1), rng.randint(-1, 1),
-                                        rng.randint(-2, 2), rng.randint(-1, 2)]}
-        grid = {}
-        for nm in rng.sample(["a", "b", "d", "e"], rng.choice([1, 1, 2])):
-            grid[nm] = _sub(rng, [-2, -1, 0, 1, 2, 3], 1, 3)
-        if rng.random() < 0.5:
-            grid["tag"] = [0, 1] if rng.random() < 0.8 else [0, 1, 2]     # exact ties
-        if len(grid_order(grid)) < 2:
-            grid["a"] = [1, 2]
+                                        rng.randint(-2, 2), rng.randint(-1, 2)],
+                "tag": rng.choice([0, 0, 1])}
+        pool = _leaf_pool(base, minlen)
     elif fam == "naive":
-        base = {"type": "naive"}
-        grid = {"strategy": _sub(rng, ["last", "mean"], 1, 2)}
-        if rng.random() < 0.7:
-            grid["window_length"] = _sub(rng, [None, 1, 2, 2], 1, 3)
-        if len(grid_order(grid)) < 2:
-            grid["strategy"] = ["last", "mean"]
+        base = {"type": "naive", "strategy": rng.choice(["last", "mean"]),
+                "wl": rng.choice([None, None, 1, min(2, minlen)])}
+        pool = _leaf_pool(base, minlen)
     elif fam == "pipe":
         if rng.random() < 0.6:
             inner = {"type": "double", "k": [1, rng.randint(0, 1), 0, rng.randint(-1, 1),
                                              rng.randint(0, 1)]}
-            grid = {"f__" + rng.choice(["a", "d", "e"]): _sub(rng, [-1, 0, 1, 2], 1, 2)}
         else:
-            inner = {"type": "naive", "strategy": "last", "wl": None}
-            grid = {"f__strategy": ["last", "mean"]}
-        base = {"type": "pipe", "inner": inner}
-        grid["t__a"] = _sub(rng, [1, 2, -1, 4], 1, 2)
-        if rng.random() < 0.5:
-            grid["t__b"] = _sub(rng, [0, 1, -3], 1, 2)
+            inner = {"type": "naive", "strategy": rng.choice(["last", "mean"]), "wl": None}
+        base = {"type": "pipe", "inner": inner, "a": rng.choice([1, 1, 2, -1]),
+                "b": rng.choice([0, 0, 1])}
+        pool = {"t__a": [1, 2, -1, 4], "t__b": [0, 1, -3]}
+        inner_pool = _leaf_pool(inner, minlen, "f__")
+        inner_pool.pop("f__b", None)
+        inner_pool.pop("f__window_length", None)
+        pool.update(inner_pool)
     else:
-        members = []
-        for i in range(rng.randint(2, 4)):
-            if rng.random() < 0.6:
-                spec = {"type": "double", "k": [rng.randint(-1, 2), rng.randint(0, 1), 0,
-                                                rng.randint(-1, 1), rng.randint(-1, 2)]}
-            else:
-                spec = {"type": "naive", "strategy": rng.choice(["last", "mean"]), "wl": None}
-            members.append(["m%d" % i, spec])
-        base = {"type": "mux", "members": members}
+        members = [["m%d" % i, _rand_member(rng, minlen)] for i in range(rng.randint(2, 4))]
         names = [m[0] for m in members]
-        sel = list(names)
-        if rng.random() < 0.4:
-            sel.append(rng.choice(names))                                  # repeated -> tie
-        rng.shuffle(sel)
-        grid = {"selected_forecaster": sel}
-    return fam, base, grid
+        base = {"type": "mux", "members": members, "selected": rng.choice(names)}
+        pool = {"selected_forecaster": names}
+        for nm, sp in members:
+            mp = _leaf_pool(sp, minlen, nm + "__")
+            for k in (nm + "__b", nm + "__tag", nm + "__window_length"):
+                mp.pop(k, None)
+            pool.update(mp)
+    return fam, base, pool
+
+
+def _rand_subgrid(rng, pool, nkeys, maxvals):
+    g = {}
+    for k in rng.sample(sorted(pool), min(nkeys, len(pool))):
+        g[k] = _sub(rng, pool[k], 1, min(maxvals, len(pool[k])))
+    return g
+
+
+def rand_search(rng, minlen=1):
+    fam, base, pool = rand_base(rng, minlen)
+    for _ in range(50):
+        if rng.random() < 0.5:
+            # one dict: every candidate names the same parameters
+            grid = _rand_subgrid(rng, pool, rng.choice([1, 1, 2, 2, 3]), 3)
+            if fam == "mux" and "selected_forecaster" in grid and rng.random() < 0.5:
+                grid["selected_forecaster"] = list(grid["selected_forecaster"]) + [
+                    rng.choice(pool["selected_forecaster"])]          # repeated name -> exact tie
+            if fam == "double" and rng.random() < 0.4:
+                grid["tag"] = [0, 1] if rng.random() < 0.8 else [0, 1, 2]          # exact ties
+            form = "dict"
+        else:
+            # a list of dicts naming DIFFERENT parameters (value sets overlap on purpose); now and
+            # then the empty dict = the base forecaster as it is
+            grid = []
+            for _j in range(rng.choice([2, 2, 3])):
+                grid.append({} if rng.random() < 0.12 else
+                            _rand_subgrid(rng, pool, rng.choice([1, 1, 2]), 2))
+            if len(set(tuple(sorted(g)) for g in grid)) < 2:
+                continue
+            form = "list"
+        if 2 <= len(grid_order(grid)) <= 8:
+            return fam, base, grid, form
+    k = sorted(pool)[0]
+    return fam, base, {k: pool[k][:2]}, "dict"
 
 
 TUNE_METRICS = ["mape", "mape", "default", "mae", "mse", "asym", "asym_gib", "asym_gib", "negmae",
@@ -472,17 +635,11 @@ TUNE_METRICS = ["mape", "mape", "default", "mae", "mse", "asym", "asym_gib", "as
 def gen_cases(rng, tier):
     cases = []
     for _ in range(200 if tier == "quick" else 1500):
-        fam, base, grid = rand_search(rng)
         sp, n = c07.rand_splitter(rng, allow_bad=rng.random() < 0.3)
         n = min(n, 22)
         spl = c07.ref_splits(sp, n)
-        if fam == "naive" and spl:
-            minlen = min(len(tr) for tr, _ in spl)
-            if "window_length" in grid:
-                grid["window_length"] = [w for w in grid["window_length"]
-                                         if w is None or w <= minlen] or [None]
-                if len(grid_order(grid)) < 2:
-                    grid["strategy"] = ["last", "mean"]
+        minlen = min(len(tr) for tr, _ in spl) if spl else 1
+        fam, base, grid, form = rand_search(rng, minlen)
         ncand = len(grid_order(grid))
         search = "grid"
         n_iter = seed = None
@@ -496,7 +653,10 @@ def gen_cases(rng, tier):
         fh2 = sorted(rng.sample(range(1, 4), rng.randint(1, 2)))
         cases.append({
             "kind": "tune", "search": search, "n_iter": n_iter, "seed": seed, "fam": fam,
-            "base": base, "grid": grid, "splitter": sp, "off": rng.choice([0, 0, 5]),
+            "base": base, "grid": grid, "form": form,
+            "prior": rng.choice([None, None, None, None, None, None, None, "same", "other",
+                                 "other"]),
+            "splitter": sp, "off": rng.choice([0, 0, 5]),
             "y": [rng.randint(1, 9) for _ in range(n)],
             "X": [rng.randint(-2, 4) for _ in range(n)] if with_x else None,
             "strategy": rng.choice(["refit", "refit", "update"]),
@@ -507,17 +667,38 @@ def gen_cases(rng, tier):
     return cases
 
 
+def _regrid(c, subs):
+    """the case with its search space replaced (a dict stays a dict while it is a single one)"""
+    d = dict(c)
+    d["grid"] = subs[0] if (isinstance(c["grid"], dict) and len(subs) == 1) else subs
+    if d["search"] == "random":
+        d["n_iter"] = min(d["n_iter"], len(grid_order(d["grid"])))
+    return d
+
+
 def shrink(case):
     c = dict(case)
-    g = c["grid"]
-    for k in sorted(g):
-        if len(g[k]) > 1 and len(grid_order(g)) > 2:
-            for i in range(len(g[k])):
-                d = dict(c)
-                d["grid"] = dict(g, **{k: g[k][:i] + g[k][i + 1:]})
-                if d["search"] == "random":
-                    d["n_iter"] = min(d["n_iter"], len(grid_order(d["grid"])))
-                yield d
+    subs = subgrids(c["grid"])
+    ncand = len(grid_order(c["grid"]))
+    if c.get("prior"):
+        d = dict(c)
+        d["prior"] = None
+        yield d
+    # drop a sub-grid, a value, a key
+    if len(subs) > 1:
+        for i in range(len(subs)):
+            rest = subs[:i] + subs[i + 1:]
+            if len(grid_order(rest)) >= 2:
+                yield _regrid(c, rest)
+    for i, g in enumerate(subs):
+        for k in sorted(g):
+            if len(g[k]) > 1 and ncand > 2:
+                for j in range(len(g[k])):
+                    yield _regrid(c, subs[:i] + [dict(g, **{k: g[k][:j] + g[k][j + 1:]})]
+                                  + subs[i + 1:])
+            if len(g[k]) == 1 and len(g) > 1:
+                yield _regrid(c, subs[:i] + [{q: v for q, v in g.items() if q != k}]
+                              + subs[i + 1:])
     n = len(c["y"])
     if n > 3:
         d = dict(c)
@@ -561,10 +742,55 @@ Open Scope Z_scope.
 """
 
 
-def c_fc8(spec):
-    if spec["type"] == "pipe":
-        return "(F8Pipe %s %s %s)" % (cz(spec["a"]), cz(spec["b"]), c07.c_fc(spec["inner"]))
-    return "(F8 %s)" % c07.c_fc(spec)
+def _leaf(spec):
+    return c07.c_fc(dict(spec, strategy=spec.get("strategy", "last"))
+                    if spec["type"] == "naive" else spec)
+
+
+def c_base(base):
+    """the base forecaster object as an fc8 term"""
+    t = base["type"]
+    if t == "pipe":
+        return "(F8Pipe %s %s %s)" % (cz(base.get("a", 1)), cz(base.get("b", 0)),
+                                      _leaf(base["inner"]))
+    if t == "mux":
+        names = [m[0] for m in base["members"]]
+        sel = names.index(base["selected"]) if base.get("selected") in names else len(names)
+        return "(F8Mux %s %s)" % (clist([_leaf(sp) for _, sp in base["members"]]), cz(sel))
+    return "(F8 %s)" % _leaf(base)
+
+
+def _c_leaf_pset(key, v):
+    if key in "abcde" and len(key) == 1:
+        return "(PCoef %s %s)" % (cz("abcde".index(key)), cz(v))
+    if key == "tag":
+        return "(PTag %s)" % cz(v)
+    if key == "strategy":
+        return "(PStrategy %s)" % cbool(v == "mean")
+    if key == "window_length":
+        return "(PWl %s)" % ("None" if v is None else "(Some %s)" % cz(v))
+    raise AssertionError(key)
+
+
+def c_pa(base, params):
+    """one candidate dict as a list of single assignments (sorted by parameter name)"""
+    t = base["type"]
+    out = []
+    for key in sorted(params):
+        v = params[key]
+        if t == "pipe":
+            out.append({"t__a": "(PTa %s)", "t__b": "(PTb %s)"}[key] % cz(v) if key[:3] == "t__"
+                       else "(PInner %s)" % _c_leaf_pset(key[3:], v))
+        elif t == "mux":
+            names = [m[0] for m in base["members"]]
+            if key == "selected_forecaster":
+                out.append("(PSelect %s)" % cz(names.index(v)))
+            else:
+                nm, sub = key.split("__", 1)
+                out.append("(PMember %s %s)" % (cz(names.index(nm)), _c_leaf_pset(sub, v)))
+        else:
+            out.append(_c_leaf_pset(key, v))
+    return clist(out)
 
 
 def _c_series(lst):
@@ -603,7 +829,7 @@ def _c_answer(a):
     return "ANotFitted" if a["cutoff"] is None else "(ACutoff %s)" % cz(a["cutoff"])
 
 
-def _c_args(case, specs):
+def _c_args(case, cands):
     n, off = len(case["y"]), case["off"]
     metric = "asym" if case["metric"] == "asym_gib" else case["metric"]
     fitfh = [] if case["fit_fh"] is None else [off + n - 1 + h for h in case["fit_fh"]]
@@ -613,19 +839,19 @@ def _c_args(case, specs):
         "None" if case.get("X") is None else "(Some %s)" % clist([cq(Fraction(v))
                                                                   for v in case["X"]]),
         "Refit" if case["strategy"] == "refit" else "UpdateS", c07.MSPEC[metric],
-        cbool(GIB.get(case["metric"], False)), clist([c_fc8(s) for s in specs]),
+        cbool(GIB.get(case["metric"], False)),
+        "%s %s" % (c_base(case["base"]), clist([c_pa(case["base"], p) for p in cands])),
         cbool(case["refit"]), czlist(fitfh), _c_script(case))
 
 
 def coq_case(case, out):
     if "err" in out:
         # the candidate list of a rejected search is the grid (never evaluated)
-        specs = [decode(case["base"], p) for p in grid_order(case["grid"])]
-        if any(s is None for s in specs):
+        cands = grid_order(case["grid"])
+        if any(decode(case["base"], p) is None for p in cands):
             return None
-        return "CTune %s None" % _c_args(case, specs)
-    specs = [decode(case["base"], p) for p in out["params"]]
-    if any(s is None for s in specs):
+        return "CTune %s None" % _c_args(case, cands)
+    if any(decode(case["base"], p) is None for p in out["params"]):
         return None
     vals = out["means"] + out["ranks"] + [out["best_score"]]
     if any(v is None or isinstance(v, str) for v in vals):
@@ -644,12 +870,11 @@ def coq_case(case, out):
         clist([cq(v) for v in out["means"]]), clist([cq(v) for v in out["ranks"]]),
         cz(out["best_index"]), cq(out["best_score"]), cz(cand),
         clist([_c_answer(a) for a in out["answers"]]))
-    return "CTune %s (Some %s)" % (_c_args(case, specs), im)
+    return "CTune %s (Some %s)" % (_c_args(case, out["params"]), im)
 
 
 def coq_model_term(case):
-    specs = [decode(case["base"], p) for p in grid_order(case["grid"])]
-    return "model_tune %s" % _c_args(case, specs)
+    return "model_tune %s" % _c_args(case, grid_order(case["grid"]))
 
 
 def distribution(cases, results):
@@ -660,6 +885,11 @@ def distribution(cases, results):
         d["%s:%s" % (c["fam"], "rejected" if "err" in o else "accepted")] += 1
         if "means" in o:
             d["search=%s" % c["search"]] += 1
+            d["space=%s" % c.get("form", "dict")] += 1
+            d["prior-search=%s" % c.get("prior")] += 1
+            keysets = set(tuple(sorted(p)) for p in o["params"])
+            d["candidates-name-different-parameters=%s" % (len(keysets) > 1)] += 1
+            d["empty-dict-candidate=%s" % ({} in o["params"])] += 1
             d["candidates=%s" % min(len(o["means"]), 8)] += 1
             d["metric=%s" % c["metric"]] += 1
             d["refit=%s" % c["refit"]] += 1
